@@ -1,4 +1,4 @@
-use c05::api::{self, CaseA, CompSpec, Op, Terminal};
+use c05::api::{self, CaseA, CompSpec, Op, Setter, Terminal};
 use c05::forms::{self, CaseB};
 use c05::rec::FilterSpec;
 use vcore::proptest::prelude::*;
@@ -8,7 +8,28 @@ const RULE: &str = "Domain A (api-sequences): a SpanGuard built by SpanGuard::ne
 fn comp_spec() -> impl Strategy<Value = CompSpec> {
     // 0 custom, 1 emit's default completion, 2 / 3 the macros' Ok / Err completions over the case's runtime
     let kind = prop_oneof![3 => Just(0u8), 3 => Just(1u8), 1 => Just(2u8), 1 => Just(3u8)];
-    (kind, prop::option::of(0u8..4), prop::option::of(0u8..4)).prop_map(|(kind, lvl, panic_lvl)| CompSpec { kind, lvl, panic_lvl })
+    let setter = prop_oneof![
+        2 => (0u8..4).prop_map(Setter::Lvl),
+        3 => (0u8..4).prop_map(Setter::PanicLvl),
+        3 => (0u8..3).prop_map(Setter::Tpl),
+    ];
+    (kind, prop::option::of(0u8..4), 0u8..2, prop::collection::vec(setter, 0..=6)).prop_map(|(kind, lvl, ctor, raw)| {
+        // constructive: each kind of builder call at most twice, order kept
+        let mut n = [0u8; 3];
+        let builder = raw
+            .into_iter()
+            .filter(|s| {
+                let k = match s {
+                    Setter::Lvl(_) => 0,
+                    Setter::PanicLvl(_) => 1,
+                    Setter::Tpl(_) => 2,
+                };
+                n[k] += 1;
+                n[k] <= 2
+            })
+            .collect();
+        CompSpec { kind, lvl, panic_lvl: None, ctor, builder }
+    })
 }
 
 /// `p_reject`-ish mix: constant filters plus filters whose verdict depends on what distinguishes a span's
@@ -98,7 +119,7 @@ fn case_b() -> impl Strategy<Value = CaseB> {
 }
 
 fn d2_probe(terminal: Terminal) -> CaseA {
-    let plain = CompSpec { kind: 0, lvl: None, panic_lvl: None };
+    let plain = CompSpec { kind: 0, lvl: None, panic_lvl: None, ctor: 0, builder: vec![] };
     CaseA {
         filter: FilterSpec::RejectAll,
         inside_frame: true,
@@ -149,6 +170,10 @@ fn main() {
             s.require("differ:complete", 1000);
             s.require("differ:complete_with", 1000);
             s.require("differ:A-through-result-hook", 1000);
+            // the builder call sequence of emit's default completion
+            s.require("builder:>=2-setters", 5000);
+            s.require("builder:with_panic_lvl-before-with_tpl", 2000);
+            s.require("builder:with_panic_lvl-before-with_tpl/panic-exit", 500);
             s.require("B:when-accepts-over-rejecting-runtime-filter", 400);
             s.require("B:when-rejects-over-accepting-runtime-filter", 400);
             // a fixed probe for the class of defect D2 (with_completion on a filtered-out guard), so that
